@@ -11,6 +11,9 @@ checks = {
  "C03": dict(technique="runtime monitoring: generated slice/string programs executed under real /bin/bash, judged by an independent reference interpreter",
    text="Differential runtime monitoring of slice and string operations: all substring index pairs up to length 12, growth/gap-fill for old lengths 0..12, aliasing chains, copy for all length pairs, range forms, plus a random sweep with arbitrary int index expressions.",
    note="Trusted: RefLang interpreter (slices as shared growable vectors), /bin/bash 5.2. Undefined cases (out-of-range, resize while ranging, copy into longer dst) discarded.", ref="§3 C03"),
+ "C18": dict(technique="runtime monitoring: probe programs invoked by executed scripts record argv, act as tagged pipeline filters and produce requested output/status; logs, stdout and captured values compared with a model",
+   text="Probe-based monitor: the harness installs probe programs in the sandbox; argument cells (payloads, every printable character, empty strings, 0-5 arguments) x position x form (literal, variable, run-time, concatenation, call result), program names (identifier, literal paths incl. blanks), pipelines of 1-3 tagged stages, capture with 0-3 trailing newlines, statuses 0..255 on last and non-last stages, statement vs capture, top level vs function; the oracle is a model of the probes (expected argv logs, stdout, captured value and status) plus the sandbox snapshot.",
+   note="Trusted: the probe model, sandbox snapshot. Bash only; literal spellings of \" $ ` \\ avoided (C08 finding).", ref="§3 C18"),
  "C17": dict(technique="runtime monitoring: executed write/append/read/exists histories; printed results and a recursive snapshot of the sandbox file system compared with a model file system",
    text="History monitor against a model file system: single-store cells over 33 path spellings x contents (payloads, every printable character, newlines) x literal/run-time origin x top level/function x literal/computed append flag, and enumerated + random histories of write/append/read/exists over three paths; after each script the complete sandbox (every path, every byte) must equal the model, so a write touching another path is seen.",
    note="Trusted: RefLang interpreter's file model, sandbox snapshot. Bash only; literal spellings of \" $ ` \\ avoided (C08 finding).", ref="§3 C17"),
